@@ -116,7 +116,7 @@ def gen_bytes(spec, tag):
 class Proc:
     __slots__ = (
         "pid", "task", "execno", "argv", "cwd", "env", "fds", "script", "ip", "state", "status",
-        "term", "term_delay", "partial", "registered", "sigs", "stray",
+        "term", "term_delay", "partial", "registered", "sigs", "stray", "label", "detached", "group",
     )
 
     def __init__(self, pid, task, execno, argv, cwd, env, fds, script):
@@ -136,10 +136,13 @@ class Proc:
         self.partial = None
         self.sigs = []
         self.stray = False
+        self.label = None
+        self.detached = False      # a grandchild: not waitable by cond, no SIGCHLD
+        self.group = pid
 
     @property
     def name(self):
-        return "%s#%d" % (self.task, self.execno)
+        return self.label or "%s#%d" % (self.task, self.execno)
 
 
 DEFAULT_SCRIPT = {"steps": [], "end": ["exit", 0]}
@@ -885,6 +888,7 @@ def _sh_signal(sig, h):
         return REAL.signal(sig, h)
     old = s.handlers.get(sig, signal.SIG_DFL)
     s.handlers[sig] = h
+    s.registered.add(int(sig))
     s.emit("sigreg", signal.Signals(sig).name, getattr(h, "__name__", str(h)))
     s.after_call()
     return old
@@ -1202,6 +1206,7 @@ class Sim:
         self.worker_by_ident = {}
         self.sig_seq = 0
         self.wakeup_fd = None
+        self.registered = set()
 
     def count(self, key, k=1):
         self.stats[key] = self.stats.get(key, 0) + k
@@ -1319,6 +1324,31 @@ class Sim:
                 pass
 
     def _finish_proc(self, p, status, how):
+        if p.detached:
+            for fd in p.fds.values():
+                try:
+                    os.close(fd)
+                except OSError:
+                    pass
+            p.fds = {}
+            p.state = "reaped"
+            self.emit("bgexit", p.name)
+            return
+        bg = p.script.get("bg")
+        if bg and how in ("exit", "sig") and bg["stream"] in p.fds and self._is_pipe(p.fds[bg["stream"]]):
+            # (only where Conductor itself sits at the other end of a pipe: with a log file handed to the
+            # task, what a helper writes after the task's own process has exited is the task's business)
+            # a background helper the task started keeps one of its streams open and goes on writing
+            q = Proc(self.next_pid, p.task, p.execno, ["bg"], p.cwd, p.env, {bg["stream"]: p.fds.pop(bg["stream"])},
+                     {"steps": list(bg["steps"]), "end": ["exit", 0]})
+            self.next_pid += 1
+            q.label = p.name + "~bg"
+            q.stray = True
+            q.detached = True
+            q.group = p.pid
+            self.procs[q.pid] = q
+            self.emit("bgspawn", q.name, bg["stream"])
+            self.count("fault.background_helper_keeps_stream_open")
         for fd in p.fds.values():
             try:
                 os.close(fd)
@@ -1329,6 +1359,15 @@ class Sim:
         p.status = status
         self.emit("exit", p.name, how, status)
         self.raise_signal(signal.SIGCHLD)
+
+    @staticmethod
+    def _is_pipe(fd):
+        import stat as _stat
+
+        try:
+            return _stat.S_ISFIFO(os.fstat(fd).st_mode)
+        except OSError:
+            return False
 
     def child_enabled(self, p):
         if p.state != "running":
@@ -1504,6 +1543,10 @@ class Sim:
             raise ProcessLookupError(errno.ESRCH, "No such process")
         self.emit("kill", p.name, signal.Signals(sig).name, "group" if group else "pid", p.state)
         p.sigs.append(int(sig))
+        if group:
+            for q in self.procs.values():
+                if q.detached and q.group == p.pid and q.state == "running" and sig in (signal.SIGTERM, signal.SIGKILL):
+                    q.term = True
         if sig == signal.SIGTERM and p.state == "running":
             p.term = True
         elif sig == signal.SIGKILL and p.state == "running":
@@ -1582,7 +1625,7 @@ class Sim:
         self.checkpoint(None, "shim")
 
     def checkpoint(self, code, what):
-        if int(signal.SIGINT) in self.handlers and int(signal.SIGTERM) in self.handlers:
+        if int(signal.SIGTERM) in self.registered:
             self.cp += 1
             sp = self.sig_plan
             if sp is not None and self.cp == sp[0]:
@@ -1642,7 +1685,7 @@ class Sim:
         if self.pending:
             self.count("reach.signal_tripped_between_last_check_point_and_blocking_call")
         while True:
-            if int(signal.SIGINT) in self.handlers and int(signal.SIGTERM) in self.handlers:
+            if int(signal.SIGTERM) in self.registered:
                 self.cp += 1
                 sp = self.sig_plan
                 if sp is not None and self.cp == sp[0]:
@@ -1698,6 +1741,10 @@ class Sim:
         sg = op.get("signal")
         if sg:
             self.sig_plan = (int(sg["cp"]), sg["sig"])
+        for nm in op.get("sig_ign", []):
+            # dispositions inherited from the parent (a non-interactive shell starts background jobs
+            # with SIGINT ignored)
+            self.handlers[int(getattr(signal, "SIG" + nm))] = signal.SIG_IGN
         self.kill_at = op.get("kill")
 
         MONITOR.set_enabled(bool(self.knobs.get("mon", True)))
